@@ -70,7 +70,7 @@ Fixpoint check_igo_M_from (s : vigo) (h : list istep_rec) : bool :=
       match seen with
       | None => check_igo_M_from s1 r
       | Some ob => iobs_eqb (M_iobserve val lab_eq val_as_pos s1) ob &&
-                   check_igo_M_from (M_refresh val s1) r
+                   check_igo_M_from (M_refresh s1) r
       end
   end.
 
@@ -108,16 +108,16 @@ Record fseen := mk_fseen {
 Definition fstep_rec := (vgop * outcome * option fseen)%type.
 
 Definition layout_of (t : tb val) : list (Z * bool) :=
-  map (fun b => (blk_width val b, b_2d val b)) (t_blocks val t).
+  map (fun b => (blk_width b, b_2d b)) (t_blocks t).
 
 Definition layout_eqb := list_eqb (fun a b : Z * bool => (fst a =? fst b) && Bool.eqb (snd a) (snd b)).
 
 Definition fobs_M_eqb (f : vfgo) (ob : fseen) : bool :=
   let m := M_fobserve val val lab_eq val_as_pos f in
-  labs_eqb (fo_labels val val m) (fs_labels ob) && (fo_npos val val m =? fs_npos ob) &&
-  cols_eqb (fo_cols val val m) (fs_cols ob) &&
-  (fst (fo_shape val val m) =? fst (fs_shape ob)) && (snd (fo_shape val val m) =? snd (fs_shape ob)) &&
-  layout_eqb (layout_of (f_tb val val f)) (fs_layout ob).
+  labs_eqb (fo_labels m) (fs_labels ob) && (fo_npos m =? fs_npos ob) &&
+  cols_eqb (fo_cols m) (fs_cols ob) &&
+  (fst (fo_shape m) =? fst (fs_shape ob)) && (snd (fo_shape m) =? snd (fs_shape ob)) &&
+  layout_eqb (layout_of (f_tb f)) (fs_layout ob).
 
 Fixpoint check_fgo_M_from (f : vfgo) (h : list fstep_rec) : bool :=
   match h with
@@ -128,7 +128,7 @@ Fixpoint check_fgo_M_from (f : vfgo) (h : list fstep_rec) : bool :=
       match seen with
       | None => check_fgo_M_from f1 r
       | Some ob => fobs_M_eqb f1 ob &&
-                   check_fgo_M_from (mk_fgo (f_rows val val f1) (M_refresh val (f_cols val val f1)) (f_tb val val f1)) r
+                   check_fgo_M_from (mk_fgo (f_rows f1) (M_refresh (f_cols f1)) (f_tb f1)) r
       end
   end.
 
@@ -146,10 +146,10 @@ Definition check_fgo_M (auto : bool) (rows labels : list val) (blocks : list vbl
 
 Definition fobs_S_eqb (f : vsfr) (ob : fseen) : bool :=
   let m := S_fobserve val val f in
-  labs_eqb (fo_labels val val m) (fs_labels ob) && (fo_npos val val m =? fs_npos ob) &&
-  cols_eqb (fo_cols val val m) (fs_cols ob) &&
-  (fst (fo_shape val val m) =? fst (fs_shape ob)) && (snd (fo_shape val val m) =? snd (fs_shape ob)) &&
-  list_eqb Bool.eqb (fo_readable val val m) (fs_readable ob).
+  labs_eqb (fo_labels m) (fs_labels ob) && (fo_npos m =? fs_npos ob) &&
+  cols_eqb (fo_cols m) (fs_cols ob) &&
+  (fst (fo_shape m) =? fst (fs_shape ob)) && (snd (fo_shape m) =? snd (fs_shape ob)) &&
+  list_eqb Bool.eqb (fo_readable m) (fs_readable ob).
 
 Fixpoint check_fgo_S_from (f : vsfr) (h : list fstep_rec) : bool :=
   match h with
@@ -164,4 +164,4 @@ Fixpoint check_fgo_S_from (f : vsfr) (h : list fstep_rec) : bool :=
   end.
 
 Definition check_fgo_S (rows labels : list val) (blocks : list vblk) (h : list fstep_rec) : bool :=
-  check_fgo_S_from (mk_sfr rows labels (flat_map (blk_flat val) blocks)) h.
+  check_fgo_S_from (mk_sfr rows labels (flat_map blk_flat blocks)) h.
